@@ -37,7 +37,7 @@ hlib.encoded(N.DownloadNode.fetch_failed, N.DownloadNode.process_blocks, N.Downl
 _QUEUE = []
 
 
-def _eventually(f, *a, **kw):
+def _eventually(f, /, *a, **kw):
     _QUEUE.append((f, a, kw))
 
 
@@ -275,11 +275,15 @@ NOTES.append("whole-read obligation: finder.Share is replaced by a scripted shar
              "according to the share's symbolic fate, one notification at a time, oldest or newest request first); finder.reactor is a fake whose timers never fire; servers "
              "answer get_buckets with an already-fired Deferred (share numbers or an error)")
 
-GOOD, BAD_DEAD, LATE_GOOD, BAD_CORRUPT, LATE_DEAD = 0, 1, 2, 3, 4
+GOOD, BAD_DEAD, LATE_GOOD, BAD_CORRUPT, LATE_DEAD, GOOD_THEN_DEAD = 0, 1, 2, 3, 4, 5
+_READ_NO = [0]
+FATEMAP = B.get("FATEMAP")        # None: fate index == fate code; else the list of fate codes the index selects from
 _OUTSTANDING = []
 
 
 class _RObs(object):
+    segnum = 0
+
     def __init__(self, share):
         self.share = share
         self.subs = []
@@ -317,6 +321,7 @@ class _ScriptedShare(object):
     def get_block(self, segnum):
         self.requests += 1
         o = _RObs(self)
+        o.segnum = segnum
         _OUTSTANDING.append(o)
         return o
 
@@ -438,6 +443,8 @@ def _read_check(k, answers, fates, lifo, second, late=()):
                 return None
             o = live[-1] if lifo else live[0]
             fate = o.share.fate
+            if fate == GOOD_THEN_DEAD:          # the server serves the first read and is gone afterwards
+                fate = GOOD if _READ_NO[0] == 0 else BAD_DEAD
             if fate in (LATE_GOOD, LATE_DEAD) and not o.announced_overdue:
                 o.announced_overdue = True
                 o.notify(state=OVERDUE)
@@ -480,9 +487,10 @@ def _read_check(k, answers, fates, lifo, second, late=()):
             if rounds > 20:
                 return res, "late answers never end"
 
-    good_nums = set(s for (i, s), f in _ScriptedShare.fates.items() if f in (GOOD, LATE_GOOD))
-    any_share = bool(_ScriptedShare.fates)
     for attempt in range(2 if second else 1):
+        _READ_NO[0] = attempt
+        good_nums = set(s for (i, s), f in _ScriptedShare.fates.items()
+                        if f in (GOOD, LATE_GOOD) or (f == GOOD_THEN_DEAD and attempt == 0))
         before = len(seen_blocks)
         res, err = run_one()
         if err:
@@ -521,6 +529,9 @@ def _late_ok(l0, l1, l2, lifo, second):
         return False
     if not B.get("LATE"):
         return not (l0 or l1 or l2)
+    if B.get("LATE") == 2:
+        # a late answer (possibly landing while the node is idle after the first read) followed by a second read
+        return (l0 or l1 or l2) and not lifo and second
     return (l0 or l1 or l2) and not lifo and not second
 
 
@@ -548,7 +559,9 @@ def h_read(k: int, a0: int, a1: int, a2: int, f00: int, f01: int, f10: int, f11:
         row = [0, 0]
         for s in range(2):
             if held is not None and s in held:
-                row[s] = M.pick(list(range(5)), fs[i][s])
+                row[s] = M.pick(list(range(6)), fs[i][s])
+                if FATEMAP:
+                    row[s] = FATEMAP[row[s]]
             else:
                 assume(fs[i][s] == 0)          # fate of a share that does not exist is irrelevant
         fates.append(row)
@@ -558,3 +571,150 @@ def h_read(k: int, a0: int, a1: int, a2: int, f00: int, f01: int, f10: int, f11:
     sec = True if second else False
     lates = [True if x else False for x in (late0, late1, late2)][:nsrv]
     return M.run_concrete(_read_check, kk, answers, fates, lf, sec, lates)
+
+
+# =====================================================================================================
+# A whole read() through the real Segmentation on a node that does not know the segment size yet
+# (it guesses; the guess may point at the wrong segment or beyond the end of the file).
+# =====================================================================================================
+from allmydata.immutable.downloader import segmentation as SEG
+from allmydata.immutable.downloader.common import BADSEGNUM
+
+SEG.eventually = _eventually
+hlib.encoded(SEG.Segmentation.start, SEG.Segmentation._maybe_fetch_next, SEG.Segmentation._fetch_next, SEG.Segmentation._got_segment,
+             SEG.Segmentation._retry_bad_segment, SEG.Segmentation._error, SEG.Segmentation._done, N.DownloadNode.read,
+             N.DownloadNode.get_num_segments)
+NOTES.append("segmented_read: the node starts without the real segment size (segment_size/num_segments None, guessed_* set); the scripted share 'fetches the UEB' on its "
+             "first block request: the harness then stores the real segment size / segment count in the node (what _parse_and_store_UEB does) and the share answers "
+             "BADSEGNUM for a segment number beyond the real end; _decode_blocks returns the real bytes of the segment")
+
+FS = int(B.get("FS", 12))           # file size
+RS = int(B.get("RS", 5))            # real segment size
+GUESSES = B.get("GUESSES") or [2, 3, 5, 8]
+FILE = bytes(bytearray(range(40, 40 + FS)))
+
+
+class _Consumer(object):
+    def __init__(self):
+        self.data = b""
+        self.producer = None
+        self.unregistered = 0
+
+    def registerProducer(self, p, streaming):
+        self.producer = p
+
+    def unregisterProducer(self):
+        self.unregistered += 1
+        self.producer = None
+
+    def write(self, data):
+        self.data += data
+
+
+class _ReadEv(object):
+    def __init__(self):
+        self.done = 0
+
+    def update(self, *a):
+        pass
+
+    def finished(self, when):
+        self.done += 1
+
+
+class _DS3(_DS2):
+    def add_read_event(self, offset, size, when):
+        return _ReadEv()
+
+
+def _segread_check(g, offset, size, has_share, second):
+    del _QUEUE[:]
+    del _OUTSTANDING[:]
+    del _TIMERS[:]
+    _READ_NO[0] = 0
+    servers = [_DServer(0, [0] if has_share else [])]
+    _ScriptedShare.fates = {(0, 0): GOOD}
+    nd = _node(hash_ok=True, decode_ok=True)
+    nd._download_status = _DS3()
+    nd._verifycap = hlib.NS(needed_shares=1, storage_index=b"x" * 16, size=FS)
+    nd._history = None
+    nd.segment_size = None
+    nd.num_segments = None
+    nd.guessed_segment_size = g
+    nd.guessed_num_segments = (FS + g - 1) // g
+    nd._sharefinder = FI.ShareFinder(_DBroker(servers), nd._verifycap, nd, nd._download_status, None)
+    decoded = []
+    nd._decode_blocks = lambda segnum, blocks: (decoded.append(segnum), defer.succeed((FILE[segnum * RS:(segnum + 1) * RS], 0.0)))[1]
+    real_numsegs = (FS + RS - 1) // RS
+
+    def quiesce():
+        steps = 0
+        while True:
+            n = 0
+            while _QUEUE:
+                f, a, kw = _QUEUE.pop(0)
+                f(*a, **kw)
+                n += 1
+                if n > 400:
+                    return "eventual-send queue does not drain (livelock)"
+            live = [o for o in _OUTSTANDING if not o.done and not o.cancelled]
+            if not live:
+                return None
+            o = live[0]
+            o.done = True
+            if nd.segment_size is None:
+                # the share has fetched and validated the UEB: the node now knows the real geometry
+                nd.segment_size = RS
+                nd.num_segments = real_numsegs
+            if o.segnum >= nd.num_segments:
+                o.notify(state=BADSEGNUM)
+            else:
+                o.notify(state=COMPLETE, block=("block", o.segnum))
+            steps += 1
+            if steps > 100:
+                return "block requests never end"
+
+    for attempt in range(2 if second else 1):
+        cons = _Consumer()
+        res = []
+        d = nd.read(cons, offset, size)
+        d.addBoth(res.append)
+        err = quiesce()
+        if err:
+            return err
+        if len(res) != 1:
+            return ("read %d of [%d:+%d) with guessed segment size %d (real %d, %d segments): every request has been answered but the read fired %d times "
+                    "(it hangs)" % (attempt + 1, offset, size, g, RS, real_numsegs, len(res)))
+        r = res[0]
+        if nd._active_segment is not None or nd._segment_requests:
+            return "node not idle after the read"
+        if cons.producer is not None or cons.unregistered != 1:
+            return "producer not unregistered exactly once"
+        if has_share:
+            if isinstance(r, Failure):
+                return "read %d failed with %r although a good share was available" % (attempt + 1, r.value)
+            if r is not cons:
+                return "read did not fire with its consumer"
+            if cons.data != FILE[offset:offset + size]:
+                return "read [%d:+%d) delivered %r, the file has %r" % (offset, size, cons.data, FILE[offset:offset + size])
+        else:
+            if not isinstance(r, Failure) or not r.check(NotEnoughSharesError, NoSharesError):
+                return "read without any share must fail with a not-enough-shares error, got %r" % (r,)
+            if cons.data:
+                return "data delivered without shares"
+    return True
+
+
+def h_segread(gi: int, offset: int, size: int, has_share: bool, second: bool) -> bool:
+    """
+    pre: 0 <= gi < len(GUESSES) and 0 <= offset < FS and 1 <= size <= FS - offset
+    pre: B.get("gi") is None or gi == B.get("gi")
+    pre: B.get("hs") is None or has_share == bool(B.get("hs"))
+    post: _ == True
+    """
+    g = M.pick(list(GUESSES), gi)
+    off = M.pick(list(range(FS)), offset)
+    sz = M.pick(list(range(FS + 1)), size)
+    hs = True if has_share else False
+    sec = True if second else False
+    return M.run_concrete(_segread_check, g, off, sz, hs, sec)
